@@ -15,19 +15,22 @@ ASSUMPTIONS = [
     "Float model vs numpy: 1e-9 of the amplitude scale",
 ]
 
-RULE = ("seeded random 1D spectra and 2D spectra with all energy in one direction bin (any bin), sampling rates 0.5..10 Hz, even and odd "
+RULE = ("seeded random 1D spectra and 2D spectra with all energy in one direction bin (any bin), some with energy beyond fs/2, sampling rates 0.3..12 Hz (incl. 3, 7, 0.7), seeds incl. 0, even and odd "
         "signal lengths 8..2000 (20000 thorough), all six components, seeds; one case = one (spectrum, component, length, seed); "
         "non-trivial if the resampled spectrum has energy in at least 3 bins")
 
 
 def run_case(run, drv, ts_mod, rng, case, max_len):
-    fs = rng.choice([0.5, 1.0, 2.0, 2.5, 4.0, 10.0])
+    fs = rng.choice([0.5, 1.0, 2.0, 2.5, 4.0, 10.0, 3.0, 7.0, 0.7, 1.3, 6.0, round(rng.uniform(0.3, 12.0), 3)])
     L = rng.choice([8, 9, 10, 33, 64, 101, 256, rng.randint(8, max_len)])
     comp = rng.choice(["u", "v", "w", "x", "y", "z"])
-    seed = rng.randrange(2 ** 32)
+    seed = rng.choice([0, 1, rng.randrange(2 ** 32), rng.randrange(2 ** 32)])
     two_d = rng.random() < 0.5
     nf = rng.choice([6, 10, 16])
-    f = np.sort(np.unique(np.round(np.array([rng.uniform(0.02, 0.45 * fs) for _ in range(nf)]) * 1024) / 1024.0))
+    # a third of the spectra carry energy up to and beyond the Nyquist frequency fs/2
+    top = rng.choice([0.45, 0.45, 0.8]) * fs
+    f = np.sort(np.unique(np.round(np.array([rng.uniform(0.02 * fs, top) for _ in range(nf)]) * 4096) / 4096.0))
+    run.count("energy_beyond_nyquist" if top > 0.5 * fs else "energy_below_nyquist")
     if len(f) < 3:
         return
     e1 = np.array([rng.uniform(0.1, 2.0) for _ in f])
